@@ -101,6 +101,13 @@ CLAIMED["C16"] = (
     "DESIGN.md section 5 / C16",
 )
 
+CLAIMED["C04"] = (
+    "offline checker over recorded events: documents written by the compiled Go package and type-directed corruptions of them are evaluated against the generated CHECKs by a PL/pgSQL-subset interpreter with SQL three-valued logic",
+    "For every jsonb column of every synthesised model file, documents marshalled from seeded values of the column's Go type (generated union wrappers compiled in) are bound to the column and the generated CHECK + validation functions are evaluated under modelled PostgreSQL semantics: never FALSE or error on emitted documents; FALSE on single-point corruptions of the five classes directed by the JSON shape computed from go/types; every called function defined in the same script. Held on the documents and corruptions produced.",
+    "PostgreSQL is modelled, not run (harness/support/pgmodel: strict builtins, Kleene logic, CHECK passes on TRUE/NULL, plan-time type errors); unsupported constructs make a verdict inconclusive, never accepted.",
+    "DESIGN.md section 5 / C04",
+)
+
 NOT_YET = "check not built yet (work in progress, see DESIGN.md section 5 for the planned monitor)"
 NOT_APPLICABLE = {}
 
